@@ -347,6 +347,7 @@ func (r *Runner) builtin(ctx context.Context, pos syntax.Pos, name string, args 
 		if len(args) == 0 {
 			// Note that "wait" without arguments always returns exit status zero.
 			for _, bg := range r.bgProcs {
+				verifYield("wait:before-done")
 				<-bg.done
 			}
 			break
@@ -358,6 +359,7 @@ func (r *Runner) builtin(ctx context.Context, pos syntax.Pos, name string, args 
 				return failf(1, "wait: pid %s is not a child of this shell\n", arg)
 			}
 			bg := r.bgProcs[pid-1]
+			verifYield("wait:before-done")
 			<-bg.done
 			exit = *bg.exit
 		}
